@@ -43,13 +43,16 @@ def run_html(ctx):
         'select_item_html(next) and select_item_html(previous); oracle = the generator\'s record. A case = one '
         '(document, position); non-trivial when the position lies strictly inside an open or self-closing tag; distinct '
         'by (document text, position).'
-        ' NAMES OVER THE DOCUMENTED ALPHABET (harness/c17_names.py): the name alphabet is hard-coded from XML 1.0 sect. 2.3 '
-        '[4] NameStartChar / [4a] NameChar below U+2000 (the specification the library cites), not read from the library; '
-        'one document per boundary code point (first, second, last-but-one, last) of every range with that character as '
+        ' NAMES OVER THE WHOLE XML ALPHABET (harness/c17_names.py): the name alphabet is hard-coded from XML 1.0 sect. 2.3 '
+        '[4] NameStartChar / [4a] NameChar, complete (all sixteen + six ranges up to U+EFFFF: CJK, Hangul, U+200C/U+200D, '
+        'astral planes; the specification the library cites), not read from the library; '
+        'one document per boundary code point (first, second, last-but-one, last) of every range and per inner point '
+        '(CJK, Hangul, plane borders U+1FFFF/U+20000 .. U+DFFFF/U+E0000) with that character as '
         'first / middle / last / only character of tag names and attribute names (non-start name characters: middle / '
         'last), attributes in every value form plus class attributes whose tokens carry the character, and random '
         'documents whose names are drawn from the whole alphabet; non-name neighbours of the ranges (U+00D7, U+00F7, '
-        'U+00B6..U+00BF, U+037E, `@[/;` and backtick) only inside quoted values, class tokens and text; every position, same '
+        'U+00B6..U+00BF, U+037E, U+2000, U+200B, U+200E, U+203E, U+2041, U+206F, U+2190, U+2BFF, U+2FF0, U+3000, U+E000, '
+        'U+F8FF, U+FDD0, U+FDEF, U+FFFE, U+FFFF, U+F0000, U+10FFFF, `@[/;` and backtick) only inside quoted values, class tokens and text; every position, same '
         'three helpers, same ground-truth oracle, same model correspondence.')
     docs = []
     for path in sorted(glob.glob(os.path.join(VERIF, 'corpus', 'C17', 'html*.json'))):
